@@ -412,7 +412,9 @@ class Ctx:
                 if k not in self.known_hits:
                     self.known_hits.append(k)
                 return False
-        if len(self.violations) >= 20:
+        # cap per kind, so that early no-failing-input disagreements can never crowd out concrete inputs
+        n_same = sum(1 for v in self.violations if v["nfi"] == bool(no_failing_input))
+        if n_same >= (12 if no_failing_input else 30):
             return True
         os.makedirs(REPLAY, exist_ok=True)
         idx = len(self.violations)
@@ -452,6 +454,7 @@ def finish(ctx, level="proof"):
                 continue
             seen_nfi.add(v["unit"])
         kept.append(v)
+    kept.sort(key=lambda v: v["nfi"])          # concrete failing inputs first
     ctx.violations = kept[:8]
     for v in ctx.violations:
         line = "VIOLATION property=%s replay=%s" % (ctx.prop, v["path"])
@@ -487,8 +490,9 @@ def finish(ctx, level="proof"):
         "violations": len(ctx.violations),
         "notes": ctx.notes,
     }
-    os.makedirs(EVID, exist_ok=True)
-    with open(os.path.join(EVID, "%s.json" % ctx.prop), "w") as f:
+    evid = os.environ.get("VERIF_EVIDENCE_DIR") or EVID     # bin/seedrun redirects evidence of mutant runs
+    os.makedirs(evid, exist_ok=True)
+    with open(os.path.join(evid, "%s.json" % ctx.prop), "w") as f:
         json.dump(ev, f, indent=1, default=str)
     return 1 if ctx.violations else 0
 
